@@ -1,30 +1,47 @@
 (* C04 - A fetch below the high watermark always makes progress.
-   Only statements closed by [exact]; proofs live in proofs/ReadPathProofs.v.
-   The model is of the tree with fixes/C04-find-index-entry-floor.patch applied.
-   The full statement is REFUTED on that tree (open finding
-   "sparse-index-entry-before-offset+maxbytes-le-distance"); it is proved on the
-   complement of the finding's input class. *)
+   Only statements closed by [exact]; proofs live in proofs/ReadPathProofs.v,
+   ReadPathFloor.v and ReadRestoreProofs.v.
+   With fixes/C04-never-cut-inside-index-block.patch (model version VFull = [read]) the
+   property is PROVED in full.  Without it (VFloor = [read_floor], the tree that only
+   has fixes/C04-find-index-entry-floor.patch) it is refuted - the finding
+   "sparse-index-entry-before-offset+maxbytes-le-distance" - and holds on the
+   complement of that input class. *)
 From KS Require Import lib.Base model.ReadPath model.ReadRestore proofs.ReadPathProofs proofs.ReadPathFloor proofs.ReadRestoreProofs.
 Open Scope Z_scope.
 
-(* The property: for every history, index interval, cache state, fetch offset o at or
-   below the last offset of some live batch, and positive byte limit, Read succeeds
-   and the result reaches past the start of the first live batch ending at or after o
-   (the batch holding o, or the first batch after o when o is in a gap). *)
-Definition C04_progress_statement : Prop :=
+(* The property, for version [v] of the read path: for every history, index interval,
+   cache state, fetch offset o at or below the last offset of some live batch, and
+   positive byte limit, Read succeeds and the result reaches past the start of the
+   first live batch ending at or after o (the batch holding o, or the first batch after
+   o when o is in a gap). *)
+Definition C04_progress_statement (v : variant) : Prop :=
   forall iv rq start ops cached o max,
     Forall valid_op ops ->
     let l := run (init_log iv rq start) ops in
     0 < max -> (exists b, In b (live l) /\ o <= b_last b) ->
-    exists d, read l cached o max = ROk d /\ progress_run (live l) o d.
+    exists d, read_gen v true l cached o max = ROk d /\ progress_run (live l) o d.
+
+(* Full theorem for the fixed code. *)
+Theorem C04_progress : C04_progress_statement VFull.
+Proof. exact read_progress. Qed.
+Print Assumptions C04_progress.
+
+(* ... also across restarts (model/ReadRestore.v). *)
+Theorem C04_progress_restart : forall iv rq start xs cached o max,
+  Forall valid_xop xs ->
+  let l := xrun (init_log iv rq start) xs in
+  0 < max -> (exists b, In b (live l) /\ o <= b_last b) ->
+  exists d, read l cached o max = ROk d /\ progress_run (live l) o d.
+Proof. exact read_progress_restart. Qed.
+Print Assumptions C04_progress_restart.
 
 Definition p61 (marker : Z) (lod : Z) : bytes :=
   repeat marker 23 ++ u32 lod ++ repeat marker 30 ++ u32 (lod + 1).
 
-(* Refuted: index interval 2, four one-record 61-byte batches in one segment (index
-   entries at offsets 0 and 2), Read(offset 1, maxBytes 61) returns exactly batch 0:
-   only records before the fetch offset, on both the cached and the range-read path. *)
-Theorem C04_progress_refuted : ~ C04_progress_statement.
+(* Without the cap extension the statement is false: index interval 2, four one-record
+   61-byte batches in one segment (index entries at offsets 0 and 2), Read(offset 1,
+   maxBytes 61) returns exactly batch 0: only records before the fetch offset. *)
+Theorem C04_progress_refuted_without_cap_extension : ~ C04_progress_statement VFloor.
 Proof.
   intros H.
   set (ops := [OAppend (p61 1 0); OAppend (p61 2 0); OAppend (p61 3 0); OAppend (p61 4 0); OPrepare 0 0; OCommit]).
@@ -34,50 +51,47 @@ Proof.
   destruct (H 2 false 0 ops false 1 61 Hv eq_refl Hex) as (d & Hr & Hp).
   apply progress_run_b in Hp. vm_compute in Hr. injection Hr as <-. vm_compute in Hp. discriminate.
 Qed.
-Print Assumptions C04_progress_refuted.
+Print Assumptions C04_progress_refuted_without_cap_extension.
 
-(* Partial: the statement holds whenever maxBytes exceeds [entry_distance] - the
-   bytes between the position of the index entry Read starts from and the start of
-   the batch holding o.  The distance is 0 when the index has an entry at that batch
-   and for every read served from the flush window or the write buffer; so the only
-   failing inputs are "index entry strictly before the batch holding o and
-   maxBytes <= distance", the open finding. *)
-Theorem C04_progress_partial : forall iv rq start ops cached o max,
+(* ... and holds, for the versions with the floor lookup, whenever maxBytes exceeds
+   [entry_distance] - the bytes between the position of the index entry Read starts
+   from and the start of the batch holding o (0 when the index has an entry at that
+   batch and for every read served from the flush window or the write buffer). *)
+Theorem C04_progress_partial : forall v iv rq start ops cached o max,
+  v_floor v = true ->
   Forall valid_op ops ->
   let l := run (init_log iv rq start) ops in
   0 < max -> (exists b, In b (live l) /\ o <= b_last b) ->
   entry_distance l o < max ->
-  exists d, read l cached o max = ROk d /\ progress_run (live l) o d.
+  exists d, read_gen v true l cached o max = ROk d /\ progress_run (live l) o d.
 Proof. exact read_progress_partial. Qed.
 Print Assumptions C04_progress_partial.
 
-(* The same across restarts (model/ReadRestore.v). *)
-Theorem C04_progress_partial_restart : forall iv rq start xs cached o max,
+Theorem C04_progress_partial_restart : forall v iv rq start xs cached o max,
+  v_floor v = true ->
   Forall valid_xop xs ->
   let l := xrun (init_log iv rq start) xs in
   0 < max -> (exists b, In b (live l) /\ o <= b_last b) ->
   entry_distance l o < max ->
-  exists d, read l cached o max = ROk d /\ progress_run (live l) o d.
+  exists d, read_gen v true l cached o max = ROk d /\ progress_run (live l) o d.
 Proof. exact read_progress_partial_restart. Qed.
 Print Assumptions C04_progress_partial_restart.
 
-(* A read below the end of the live log never fails, for any byte limit. *)
-Theorem C04_read_succeeds : forall iv rq start ops cached o max,
+(* A read at or below the end of the live log never fails, for any byte limit. *)
+Theorem C04_read_succeeds : forall v iv rq start ops cached o max,
   Forall valid_op ops ->
   let l := run (init_log iv rq start) ops in
-  (exists b, In b (live l) /\ o <= b_last b) -> exists d, read l cached o max = ROk d.
+  (exists b, In b (live l) /\ o <= b_last b) -> exists d, read_gen v true l cached o max = ROk d.
 Proof.
-  intros iv rq start ops cached o max Hv l Hex.
-  exact (read_ok start l cached o max (inv_run start ops _ Hv (inv_init iv rq start)) Hex).
+  intros v iv rq start ops cached o max Hv l Hex.
+  exact (read_ok v start l cached o max (inv_run start ops _ Hv (inv_init iv rq start)) Hex).
 Qed.
 Print Assumptions C04_read_succeeds.
 
 (* findIndexEntry (as fixed by fixes/C04-find-index-entry-floor.patch) returns the
    FLOOR entry: on every reachable log, in the segment that serves the offset, the
    entry Read starts from is an index entry at or below the (snapped) offset and no
-   other entry at or below the offset is greater.  So [entry_distance] above is the
-   distance from the true floor entry, and is 0 whenever the index has an entry at
-   the batch holding the offset. *)
+   other entry at or below the offset is greater. *)
 Theorem C04_entry_is_floor : forall iv rq start ops o s o',
   Forall valid_op ops ->
   let l := run (init_log iv rq start) ops in
@@ -97,13 +111,18 @@ Example C04_head_find_entry_witness :
   map (fun o => ie_off (find_entry es o)) [0; 1; 2; 3; 7; 8; 10; 11; 12; 13; 99] = [0; 0; 0; 3; 6; 6; 9; 9; 12; 12; 12].
 Proof. vm_compute. repeat split. Qed.
 
-(* non-vacuity of the partial theorem: same log as the refutation; maxBytes 62 > 61 =
-   distance makes progress, and offset 2 has an index entry (distance 0) *)
+(* non-vacuity / the two versions side by side on the refutation log: the distance from
+   the entry for 0 to the batch holding offset 1 is 61 bytes; without the extension
+   maxBytes 61 makes no progress and 62 does; with it, maxBytes 1 already returns both
+   batches of the index block; an offset with its own index entry is still cut at
+   maxBytes *)
 Example C04_nonvacuous :
   let ops := [OAppend (p61 1 0); OAppend (p61 2 0); OAppend (p61 3 0); OAppend (p61 4 0); OPrepare 0 0; OCommit] in
   let l := run (init_log 2 false 0) ops in
   entry_distance l 1 = 61 /\ entry_distance l 2 = 0 /\ entry_distance l 3 = 61 /\
-  (exists d, read l false 1 62 = ROk d /\ progress_b (live l) 1 d = true) /\
-  (exists d, read l true 2 1 = ROk d /\ progress_b (live l) 2 d = true) /\
-  (exists d, read l true 1 61 = ROk d /\ progress_b (live l) 1 d = false).
-Proof. vm_compute. repeat split; eexists; split; reflexivity. Qed.
+  (exists d, read_floor l true 1 61 = ROk d /\ progress_b (live l) 1 d = false) /\
+  (exists d, read_floor l false 1 62 = ROk d /\ progress_b (live l) 1 d = true) /\
+  (exists d, read l false 1 1 = ROk d /\ zlen d = 122 /\ progress_b (live l) 1 d = true) /\
+  (exists d, read l true 3 61 = ROk d /\ zlen d = 122 /\ progress_b (live l) 3 d = true) /\
+  (exists d, read l true 2 1 = ROk d /\ zlen d = 1 /\ progress_b (live l) 2 d = true).
+Proof. vm_compute. repeat split; eexists; repeat split; reflexivity. Qed.
